@@ -2,7 +2,7 @@
 Require Extraction.
 Require ExtrOcamlBasic.
 From Coq Require Import ZArith NArith.
-From GV Require Import VM.Opcode VM.Limits VM.Wf.
+From GV Require Import VM.Opcode VM.Limits VM.Wf VM.ParseDepth.
 Extraction Language OCaml.
 Extraction "model.ml" Z.add N.add Nat.add Pos.add
   Opcode.mkType1 Opcode.mkType2 Opcode.mkType3 Opcode.mkType4a Opcode.mkType4b Opcode.mkType5
@@ -13,4 +13,5 @@ Extraction "model.ml" Z.add N.add Nat.add Pos.add
   Opcode.GetClStackOffset Opcode.SetOffset Opcode.SetKIndex Opcode.LoadSmallInt Opcode.LoadNil
   Opcode.Jump Opcode.JumpIf Opcode.JumpIfNot Opcode.ValueReg Opcode.CellReg Opcode.type_of
   Limits.compile Limits.in_range Limits.ra_init Limits.ra_run Limits.ra_regs Limits.ra_cells
-  Wf.check_code Wf.first_bad Wf.succs.
+  Wf.check_code Wf.first_bad Wf.succs
+  ParseDepth.parseChunk.
